@@ -430,11 +430,12 @@ def run(pid, tier, seed, replay):
     if tier == "quick":
         ex, rg = gen_exhaustive("MC_gen.cfg")
         sim, _ = gen_simulated(200, 40, seed)
-        conc_plan = [(seed, "small", 120), (seed, "big", 25), (seed, "lag", 12)]
+        conc_plan = [(seed, "deep", 1), (seed, "small", 120), (seed, "big", 25), (seed, "lag", 12)]
     else:
         ex, rg = gen_exhaustive("MC_gen3.cfg")
         sim, _ = gen_simulated(3000, 60, seed)
         conc_plan = [(s, sz, n) for s in range(seed, seed + 5) for sz, n in (("small", 400), ("big", 100), ("lag", 40))]
+        conc_plan = [(seed, "deep2", 1), (seed, "deep", 1)] + conc_plan
     ex, gated = split_gated(ex)
     sim, sim_gated = split_gated(sim)
     variants = [with_sync_closes(s, rnd) for s in rnd.sample(ex, min(len(ex), 200 if tier == "quick" else 3000))]
